@@ -21,15 +21,21 @@ META = {
              "combination and with injected open/write/verify/unlink failures, and loaded back by the real V2 engine; records are "
              "compared by their whole gob model, not by key."),
     "note": ("Trusted: Lean kernel (propext, Classical.choice, Quot.sound); extract/c23.go; harness/c23.go (its own framing parser + gob "
-             "decode describe the folder to the model). ASSUMED (V2.Lawful, owned by C01/C05): with distinct keys a written .hyd file "
-             "loads back to the inserted records and name; gob decoding of the key; snappy round-trip. Folders with a key in several "
-             "chunks (V1 chunk-overflow defect) have no unique legacy result: reported separately as dup-ok."),
+             "decode describe the folder to the model). The V2 codec is a parameter (V2.Lawful: with distinct keys a written file loads "
+             "back to the inserted records and name); it is DISCHARGED for the C01 storage model by Hv.MigrateV2.storV2_lawful, which "
+             "instantiates write = C01 writer model (createFile; WriteEntry(insert)…; Close) and load = C01 loadIndex and derives the three "
+             "laws from Hv.Storage.loadIndex_runOps + replay_eq_specOf + find_specOf (stor1), for every lawful block codec and checksum, the "
+             "default block size, keys 1..65535 bytes, payloads <= 1 GiB and a non-empty name < 65536 bytes; Hv.C23.migrate_preserves_c01 is "
+             "the resulting statement without any V2 assumption. Still assumed: gob decodes the key the V1 engine encoded; snappy "
+             "round-trips (Codec.law). Folders with a key in several chunks (V1 chunk-overflow defect) have no unique legacy result: "
+             "reported separately as dup-ok."),
     "design_ref": "§8 C23",
 }
 
 FINDINGS = {
     "C23-hyd-left-after-failed-create": "a write failure while the .hyd file is being created (header / swamp name) leaves the partial file behind: "
                                         "the migration reports failure but a .hyd now shadows the intact V1 folder",
+    "C23-name-lost-when-meta-unreadable": "an unreadable meta file is only logged: the .hyd is written without the swamp name, and DeleteOld then removes the only copy of it",
     "C23-delete-before-verify": "V1 files are deleted before verification",
     "C23-dedupe-keeps-first": "dedupe keeps the first value of a key",
     "C23-hyd-left-after-failed-verify": "the .hyd file is left behind after a failed verification",
@@ -174,6 +180,6 @@ def run(ctx):
                                       "lines_flagged_by_model": sum(1 for f in c.flags if f)},
                    "fact_errors": errs[:10]},
         trusted=["Lean 4.33.0 kernel", "axioms: propext, Classical.choice, Quot.sound", "extract/c23.go", "harness/c23.go", "strace 6.1 fault injection",
-                 "ASSUMED (V2.Lawful; owned by C01/C05): a .hyd file written from inserts with distinct keys loads back to those records and name",
+                 "V2.Lawful discharged for the C01 storage model: Hv.MigrateV2.storV2_lawful (uses Hv.Storage.loadIndex_runOps, replay_eq_specOf, find_specOf)",
                  "ASSUMED: gob decodes the key the V1 engine encoded; snappy round-trips"],
     )
